@@ -87,6 +87,8 @@ pub struct Plan {
     pub scripted: Option<(Vec<(u32, u8)>, bool)>,
     /// PRNG case index (for `--case N` re-runs)
     pub case: u64,
+    /// debugging knob: give the reader and writer task of a yamux substream independent wakers
+    pub yamux_split_wakers: bool,
 }
 
 pub fn byte_at(uid: u32, dir: u8, off: usize) -> u8 {
@@ -203,6 +205,70 @@ fn yield_now() -> impl Future<Output = ()> {
     })
 }
 
+/// Two tasks (reader, writer) that use the two halves of one substream, made to look like one task to
+/// the substream: every poll passes a waker that wakes *both*. Used for yamux, whose `Stream` keeps a
+/// single `mpsc::Sender` (one parked-task slot) for window updates (read path) and data (write path):
+/// with two independent wakers the slot is overwritten and a wake-up is lost (rust-yamux 0.14.0, a
+/// dependency, not code of /repo — see FINDINGS.md; reproduce with `--yamux_split_wakers 1`).
+#[derive(Default)]
+struct Pair {
+    slots: Mutex<[Option<Waker>; 2]>,
+}
+impl std::task::Wake for Pair {
+    fn wake(self: Arc<Self>) {
+        self.wake_by_ref()
+    }
+    fn wake_by_ref(self: &Arc<Self>) {
+        let ws: Vec<Waker> = self.slots.lock().unwrap().iter().flatten().cloned().collect();
+        for w in ws {
+            w.wake();
+        }
+    }
+}
+struct Joint<T> {
+    inner: T,
+    pair: Option<Arc<Pair>>,
+    slot: usize,
+}
+impl<T> Joint<T> {
+    fn with<R>(&mut self, cx: &mut Context<'_>, f: impl FnOnce(Pin<&mut T>, &mut Context<'_>) -> R) -> R
+    where
+        T: Unpin,
+    {
+        match &self.pair {
+            None => f(Pin::new(&mut self.inner), cx),
+            Some(p) => {
+                p.slots.lock().unwrap()[self.slot] = Some(cx.waker().clone());
+                let w = Waker::from(p.clone());
+                f(Pin::new(&mut self.inner), &mut Context::from_waker(&w))
+            }
+        }
+    }
+}
+impl<T: futures::AsyncRead + Unpin> futures::AsyncRead for Joint<T> {
+    fn poll_read(mut self: Pin<&mut Self>, cx: &mut Context<'_>, buf: &mut [u8]) -> Poll<std::io::Result<usize>> {
+        self.with(cx, |i, c| i.poll_read(c, buf))
+    }
+}
+impl<T: futures::AsyncWrite + Unpin> futures::AsyncWrite for Joint<T> {
+    fn poll_write(mut self: Pin<&mut Self>, cx: &mut Context<'_>, buf: &[u8]) -> Poll<std::io::Result<usize>> {
+        self.with(cx, |i, c| i.poll_write(c, buf))
+    }
+    fn poll_flush(mut self: Pin<&mut Self>, cx: &mut Context<'_>) -> Poll<std::io::Result<()>> {
+        self.with(cx, |i, c| i.poll_flush(c))
+    }
+    fn poll_close(mut self: Pin<&mut Self>, cx: &mut Context<'_>) -> Poll<std::io::Result<()>> {
+        self.with(cx, |i, c| i.poll_close(c))
+    }
+}
+type RH = Joint<ReadHalf<SubstreamBox>>;
+type WH = Joint<WriteHalf<SubstreamBox>>;
+fn split_stream(s: SubstreamBox, joint: bool) -> (RH, WH) {
+    let (r, w) = s.split();
+    let pair = if joint { Some(Arc::new(Pair::default())) } else { None };
+    (Joint { inner: r, pair: pair.clone(), slot: 0 }, Joint { inner: w, pair, slot: 1 })
+}
+
 struct Ctx {
     w: W,
     spawner: Spawner,
@@ -210,14 +276,15 @@ struct Ctx {
     wgates: HashMap<(u32, u8), Arc<Gate>>,
     rgate: Arc<Gate>,
     yields: bool,
+    joint_wakers: bool,
 }
 
-async fn writer_task(cx: Arc<Ctx>, uid: u32, dir: u8, prog: Vec<WOp>, mut wh: WriteHalf<SubstreamBox>) {
+async fn writer_task(cx: Arc<Ctx>, uid: u32, dir: u8, prog: Vec<WOp>, mut wh: WH) {
     writer_body(&cx, uid, dir, prog, &mut wh).await;
     cx.w.lock().unwrap().park(uid, dir, Box::new(wh));
 }
 
-async fn writer_body(cx: &Arc<Ctx>, uid: u32, dir: u8, prog: Vec<WOp>, wh: &mut WriteHalf<SubstreamBox>) {
+async fn writer_body(cx: &Arc<Ctx>, uid: u32, dir: u8, prog: Vec<WOp>, wh: &mut WH) {
     let gate = cx.wgates[&(uid, dir)].clone();
     let mut off = 0usize;
     {
@@ -311,12 +378,12 @@ fn account_read(w: &mut World, uid: u32, dir: u8, buf: &[u8]) -> bool {
     true
 }
 
-async fn reader_task(cx: Arc<Ctx>, uid: u32, dir: u8, mut rh: ReadHalf<SubstreamBox>, chunk: usize) {
+async fn reader_task(cx: Arc<Ctx>, uid: u32, dir: u8, mut rh: RH, chunk: usize) {
     reader_body(&cx, uid, dir, &mut rh, chunk).await;
     cx.w.lock().unwrap().park(uid, 1 - dir, Box::new(rh));
 }
 
-async fn reader_body(cx: &Arc<Ctx>, uid: u32, dir: u8, rh: &mut ReadHalf<SubstreamBox>, chunk: usize) {
+async fn reader_body(cx: &Arc<Ctx>, uid: u32, dir: u8, rh: &mut RH, chunk: usize) {
     cx.w.lock().unwrap().recs.entry((uid, dir)).or_default().reader_running = true;
     let mut buf = vec![0u8; chunk.max(1)];
     loop {
@@ -354,7 +421,7 @@ async fn reader_body(cx: &Arc<Ctx>, uid: u32, dir: u8, rh: &mut ReadHalf<Substre
 
 /// acceptor side of a new inbound substream: learn the uid from the first four bytes
 async fn inbound_task(cx: Arc<Ctx>, side: usize, s: SubstreamBox) {
-    let (mut rh, wh) = s.split();
+    let (mut rh, wh) = split_stream(s, cx.joint_wakers);
     let mut pre = [0u8; 4];
     let mut got = 0;
     while got < 4 {
@@ -413,7 +480,7 @@ async fn mux_task(cx: Arc<Ctx>, side: usize, mut mux: StreamMuxerBox, mut opens:
                     let p = p.clone();
                     opens.pop_front();
                     cx.w.lock().unwrap().op("streams_opened");
-                    let (rh, wh) = s.split();
+                    let (rh, wh) = split_stream(s, cx.joint_wakers);
                     cx.spawner.spawn(writer_task(cx.clone(), p.uid, 0, p.progs[0].clone(), wh).boxed());
                     cx.spawner.spawn(reader_task(cx.clone(), p.uid, 1, rh, p.read_chunk[1]).boxed());
                 }
@@ -424,7 +491,12 @@ async fn mux_task(cx: Arc<Ctx>, side: usize, mut mux: StreamMuxerBox, mut opens:
                 Poll::Pending => break,
             }
         }
-        for _ in 0..4 {
+        for i in 0..4 {
+            if i == 3 {
+                // do not starve the other tasks, but come back: more inbound streams may be ready
+                c.waker().wake_by_ref();
+                break;
+            }
             match Pin::new(&mut mux).poll_inbound(c) {
                 Poll::Ready(Ok(s)) => cx.spawner.spawn(inbound_task(cx.clone(), side, s).boxed()),
                 Poll::Ready(Err(e)) => {
@@ -513,6 +585,7 @@ pub fn run_plan(plan: &Plan) -> Outcome {
         wgates,
         rgate: Gate::new(eager_readers),
         yields: !scripted,
+        joint_wakers: plan.kind == MuxKind::Yamux && !plan.yamux_split_wakers,
     });
     let mut rng = Rng::new(plan.sched_seed);
     let open_gate = Gate::new(true);
@@ -566,6 +639,10 @@ pub fn run_plan(plan: &Plan) -> Outcome {
                 budget = true;
             }
         }
+    }
+    if std::env::var("VC_DEBUG").is_ok() {
+        let g = w.lock().unwrap();
+        eprintln!("quiescent after {polls} polls: a2b buffered {} (written {} read {}), b2a buffered {} (written {} read {}); live tasks {}; accepted {:?}; ops {:?}; anonymous {}", a2b.buffered(), a2b.written(), a2b.read(), b2a.buffered(), b2a.written(), b2a.read(), tasks.live(), g.accepted, g.ops, g.anonymous_inbound);
     }
     // end-of-history checks
     let mut g = w.lock().unwrap();
@@ -661,6 +738,14 @@ fn gen_plan(rng: &mut Rng, kind: MuxKind, big: bool) -> Plan {
     let mut seen = HashSet::new();
     let streams: Vec<StreamPlan> = streams.into_iter().filter(|s| seen.insert(s.uid)).collect();
     let total: usize = streams.iter().flat_map(|s| s.progs.iter()).flatten().map(|o| if let WOp::Write(n) = o { *n } else { 0 }).sum();
+    // tiny read buffers on hundreds of kilobytes only burn the poll budget
+    let mut streams = streams;
+    for st in &mut streams {
+        for d in 0..2 {
+            let n: usize = st.progs[d].iter().map(|o| if let WOp::Write(n) = o { *n } else { 0 }).sum();
+            st.read_chunk[d] = st.read_chunk[d].max(n / 3000);
+        }
+    }
     let mut split_send = *rng.pick(&[1usize, 5, 64, 8192, 8192]);
     if total > 4_000 && split_send < 64 {
         split_send = 64;
@@ -677,6 +762,7 @@ fn gen_plan(rng: &mut Rng, kind: MuxKind, big: bool) -> Plan {
         sched_seed: rng.next_u64(),
         scripted: None,
         case: 0,
+        yamux_split_wakers: false,
     }
 }
 
@@ -764,6 +850,9 @@ pub fn run(args: &Args) -> i32 {
          plus all 20 op merges of two 3-op writers x eager/late readers x 2 topologies per muxer; distinct = (muxer, settings, programs, op order); non-trivial = at least one byte delivered",
     );
     let tiny = util::tiny(args);
+    if args.extra.contains_key("case") {
+        util::debug_logging();
+    }
     // bounded-exhaustive
     let mut scripted = vec![];
     for kind in [MuxKind::Mplex, MuxKind::Yamux] {
@@ -776,7 +865,7 @@ pub fn run(args: &Args) -> i32 {
                         StreamPlan { uid: 22, opener: topo, progs: [prog.clone(), vec![WOp::Write(2), WOp::Close]], read_chunk: [2, 64] },
                     ];
                     let order: Vec<(u32, u8)> = m.iter().map(|c| (if *c == 0 { 11 } else { 22 }, 0u8)).collect();
-                    scripted.push(Plan { kind, split_send: 8192, max_buffer_len: 32, streams, chunk_seed: None, sched_seed: 1, scripted: Some((order, eager)), case: 0 });
+                    scripted.push(Plan { kind, split_send: 8192, max_buffer_len: 32, streams, chunk_seed: None, sched_seed: 1, scripted: Some((order, eager)), case: 0, yamux_split_wakers: false });
                 }
             }
         }
@@ -797,6 +886,7 @@ pub fn run(args: &Args) -> i32 {
         let big = !tiny && rng.chance(1, 3);
         let mut plan = gen_plan(rng, kind, big);
         plan.case = i;
+        plan.yamux_split_wakers = args.extra.contains_key("yamux_split_wakers");
         if let Some(c) = only_case {
             if c != i {
                 return;
